@@ -69,6 +69,8 @@ CHECKS = {
                  instr=["internal/common/fastrandom.go"]),
             unit("c20-race-gabi", "root", ["zz_verif_c20_test.go"], "^TestVerifC20RaceBodies$", race=True, env={"VERIF_RACE": "1"}),
             unit("c20-race-cprng", "internal/common", ["zz_verif_c20_test.go"], "^TestVerifC20RaceCPRNG$", race=True, env={"VERIF_RACE": "1"}),
+            unit("c20-exppool", "keyproof", ["zz_verif_c20_test.go", "zz_verif_c17_test.go"], "^TestVerifC20ExpPool$", shards={"quick": 12, "thorough": 16},
+                 instr=["keyproof/exp.go"], cpus=3),
             unit("c20-race-keyproof", "keyproof", ["zz_verif_c20_test.go", "zz_verif_c17_test.go"], "^TestVerifC20RaceKeyproof$", race=True, env={"VERIF_RACE": "1"}),
             unit("c20-race-keygen", "gabikeys", ["zz_verif_c20_test.go", "zz_verif_c16_gen_test.go", "zz_verif_c16_stop_test.go"], "^TestVerifC20RaceKeygen$", race=True, env={"VERIF_RACE": "1"}),
         ],
